@@ -153,6 +153,9 @@ func (r *Reporter) getFileLines(filename string) []string {
 
 	var lines []string
 	scanner := bufio.NewScanner(strings.NewReader(string(content)))
+	// A line may be longer than the scanner's default limit (64 KiB); Scan would stop there
+	// and the rest of the file would be missing: let the buffer grow up to the whole file
+	scanner.Buffer(nil, len(content)+1)
 	for scanner.Scan() {
 		lines = append(lines, scanner.Text())
 	}
